@@ -107,6 +107,10 @@ class KernelScenario(object):
             if off == fo[4]: return c.ncols
             if off == fo[5]: return c.id
             raise Unsupported('ccs field at %d' % off)
+        if region.startswith('spm:'):
+            t = ex.mod.structs['%struct.spmatrix']
+            if off == ex.mod.field_offset(t, 1): return Ptr('ccs:' + region[4:], 0)
+            return None
         if region.startswith('num:'):
             if off == 0: return self.nums[region[4:]]
             raise Unsupported('union number read at offset %d' % off)
@@ -116,7 +120,7 @@ class KernelScenario(object):
     def external_load(self, ex, st, region, off, ty):
         """loads from globals defined in other translation units (function-pointer tables, constants of base.c)"""
         g = region[3:]
-        if g in ('scal', 'axpy', 'gemm', 'syrk', 'gemv', 'symv'):
+        if g in ('scal', 'axpy', 'gemm', 'syrk', 'gemv', 'symv', 'write_num', 'convert_num'):
             if not is_conc(off): raise Unsupported('symbolic index into table %s' % g)
             return Ptr('fn:%s#%d' % (g, off//8), 0)
         if g == 'intOne': return 1
@@ -155,6 +159,15 @@ class KernelScenario(object):
                 cur = z3.Store(cur, idx, z3.If(act, prod, old) if not isinstance(act, bool) else prod)
             st.mem[('arr', nm)] = cur
             st.scal_n = getattr(st, 'scal_n', []) + [n]
+            return None
+        if name.startswith('write_num#'):
+            # dest[i] = src[j] (element copy of the typecode)
+            dest, i, src, j = vals
+            if isinstance(src, Ptr) and str(src.region).startswith('arr:'): v = ex.load(st, X.T('double'), Ptr(src.region, src.off + 8*j))
+            elif isinstance(src, Ptr) and src.region == 'g:@Zero': v = z3.RealVal(0)
+            else: v = ex.load(st, X.T('double'), Ptr(src.region, src.off))
+            if isinstance(dest, Ptr) and str(dest.region).startswith('arr:'): ex.store(st, X.T('double'), v, Ptr(dest.region, dest.off + 8*i))
+            else: st.mem[(dest.region, dest.off if is_conc(dest.off) else 0)] = v
             return None
         if name in ('malloc', 'calloc'):
             raise Unsupported('allocation in a kernel scenario: %s' % name)
